@@ -279,6 +279,13 @@ func vHavocable(t reflect.Type) bool {
 // at the end of the path).  Natively f runs every time.
 func vSetupOnce(key string, f func()) { f() }
 
+// The repository's test binary registers the demo structs in an init function
+// of callgo_test.go; the engine executes the package without its test files.
+// Registering them here gives both the same type registry (native replays and
+// sampled-path validation compare like with like), and lets the corpus
+// scripts that use snoopy, hornet, ... run under the engine.
+func init() { RegisterDemoStructs() }
+
 var vEnvPool [4]*Zlisp
 
 // vEnvs returns n fresh-looking sandboxed interpreters built once per worker.
